@@ -433,8 +433,14 @@ class Executor:
             if s == z3.StringSort():
                 return z3.Length(v.t) != 0
             if is_usort(s):
-                # T4: user objects have default truthiness
-                return v.t != none_of(s)
+                # None is falsy; a user object may define __bool__/__len__ (its
+                # truthiness is an uninterpreted predicate) unless its class is
+                # declared to use the default (always true)
+                kl = self.spec.sort_classes.get(s.name())
+                if s.name() in ('Type', 'Method', 'Ref') or (kl is not None and kl.default_truthiness):
+                    return v.t != none_of(s)
+                tr = z3.Function('truthy_' + s.name(), s, z3.BoolSort())
+                return z3.And(v.t != none_of(s), tr(v.t))
         if isinstance(v, TupV):
             return len(v.items) > 0
         if isinstance(v, SetV):
@@ -543,6 +549,10 @@ class Executor:
             cur = self.ev(tgt, fr)
         rhs = self.ev(st.value, fr)
         curv = deref(cur)
+        if isinstance(st.op, ast.BitOr):
+            h = self.spec.inplace_or_hook(self, curv, rhs, st)
+            if h:
+                return
         if isinstance(st.op, ast.Add) and isinstance(curv, ListV):
             # list += iterable: in-place extend
             new = self.prelude.list_extend(self, curv, rhs)
@@ -616,6 +626,10 @@ class Executor:
                         self.call(BoundMethod(obj, Closure(sfn, None, sm, cls=sq)),
                                   [v], {}, node)
                         return
+            hk = kl.attr_store_hooks.get(attr) if kl is not None else None
+            if hk is not None:
+                hk(self, obj, v, node)
+                return
             self.null_check(obj, node)
             self.write_field(obj.t, attr, v)
             return
@@ -685,7 +699,20 @@ class Executor:
 
     def st_Try(self, st, fr):
         if st.finalbody:
-            self.unsupported('try/finally', st)
+            # the finally block runs on every way out (normal, exception, return,
+            # break, continue); PathEnd is not a way out of the program
+            try:
+                self._try_core(st, fr)
+            except PathEnd:
+                raise
+            except BaseException:
+                self.run_block(st.finalbody, fr)
+                raise
+            self.run_block(st.finalbody, fr)
+            return
+        self._try_core(st, fr)
+
+    def _try_core(self, st, fr):
         try:
             self.run_block(st.body, fr)
         except PyRaise as pr:
@@ -1478,7 +1505,7 @@ class Executor:
     def call_closure(self, c, args, kwargs, node, recv=None, force_inline=False):
         fn = c.fn
         qual = getattr(fn, '_qual', None)
-        if qual is not None and not force_inline:
+        if qual is not None and not force_inline and not self.spec_mode:
             ct = self.spec.contract_for_call(self, qual)
             if ct is not None:
                 return self.spec.call_by_contract(self, ct, c, args, kwargs, node)
